@@ -50,7 +50,8 @@ class Proc:
 class Pair:
     def __init__(self, impl_timeout="20s"):
         self.model = Proc([DRIVER])
-        self.impl = Proc([DIGEXEC, "-supervise", "-timeout", impl_timeout])
+        import runner as _r
+        self.impl = Proc([_r.DIGEXEC, "-supervise", "-timeout", impl_timeout])
 
     def run(self, prog):
         line = json.dumps(prog, separators=(",", ":"))
